@@ -387,6 +387,17 @@ def report(ctx, exe, case, sig):
                    'replay_cmd': 'python3 tools/check.py C05 --replay <this file>'}, kf=classify(exe, c2, f2 or sig, r.err))
 
 
+def arglist(r):
+    t = r.below(16)
+    if t == 0:
+        return []
+    if t == 1:
+        return ['f.txt', 'g.txt']
+    if t == 2:                                   # more files than bufs[] has slots
+        return ['f.txt'] + G.MANY_ARGS[:r.range(15, 24)]
+    return ['f.txt']
+
+
 def explore(ctx, exe, kind, n):
     res = ctx.res
     r0 = ctx.rng.fork('explore-' + kind)
@@ -395,10 +406,10 @@ def explore(ctx, exe, kind, n):
         r = r0.fork(str(i))
         if kind == 'ex':
             lines, files = G.ex_script(r)
-            cases.append({'kind': 'ex', 'lines': lines, 'files': files, 'args': r.choice([['f.txt'], ['f.txt'], ['f.txt', 'g.txt'], []])})
+            cases.append({'kind': 'ex', 'lines': lines, 'files': files, 'args': arglist(r)})
         else:
             atoms, files, rows, cols = G.vi_stream(r)
-            cases.append({'kind': 'vi', 'lines': atoms, 'files': files, 'rows': rows, 'cols': cols, 'args': r.choice([['f.txt'], ['f.txt'], ['f.txt', 'g.txt'], []])})
+            cases.append({'kind': 'vi', 'lines': atoms, 'files': files, 'rows': rows, 'cols': cols, 'args': arglist(r)})
     outs = vlib.pmap(lambda c: failed(run_case(exe, c)), cases)
     seen = {}
     for c, f in zip(cases, outs):
